@@ -350,7 +350,8 @@ Definition become_leader (e : env) (s : S) : S :=
   let s := upd (fun n =>
      fold_left (fun n x => n <| next_idx := aset x (last_idx (log n) + 1) (next_idx n) |>
                              <| match_idx := aset x 0 (match_idx n) |>
-                             <| last_resp := aset x now (last_resp n) |>)
+                             <| last_resp := aset x now (last_resp n) |>
+                             <| sr := (sr n) <| trans := adel x (trans (sr n)) |> |>)
                (sunion (others n) (readonly n)) n) s in
   let s := upd (fun n => let idx := last_idx (log n) + 1 in
                          (log_add (mkEntry (noop_cmd (noop_pk (cf e))) idx (term n)) n) <| noop_idx := Some idx |>) s in
